@@ -208,7 +208,7 @@ def tmpNameOf : Nat → Nat → List Name → Name
 /-- `normalizeSymbolicLinkAndEnsurePortable` on POSIX (symbolic_link.go:34-108). -/
 def normPortable (path : Path) (target : String) : Option String :=
   if target == "" then none else
-  if target.utf8ByteSize > 247 then none else
+  if target.utf8ByteSize > Mutagen.Facts.transitionMaxPortableLinkLength then none else
   if target.toList.contains ':' then none else
   if target.toList.contains '\\' then none else
   if target.toList.head? == some '/' then none else
